@@ -277,7 +277,9 @@ class CallMixin(object):
         for etype, _note in c.may_raise_:
             if self.path.nondet("may_raise"):
                 raise PyRaise(etype, origin="may be raised by %s (contract)" % callee)
-        self.path.event("call", callee, dict(env.vars))
+        from .verify import snapshot as _snap
+        _memo = {}
+        self.path.event("call", callee, {k_: _snap(v_, _memo) for k_, v_ in env.vars.items()})
         if c.init_fields_ is not None and env.has("self") and isinstance(env.lookup("self"), Inst):
             inst = env.lookup("self")
             for fld, t in c.init_fields_.items():
@@ -287,6 +289,10 @@ class CallMixin(object):
         result = None
         if c.returns_ is not None:
             result = fresh_of_type(self, c.returns_, "ret_" + short.split(".")[-1])
+            if callee.endswith("PyramidIO.read_image"):
+                if not hasattr(self.path, "read_results"):
+                    self.path.read_results = []
+                self.path.read_results.append(result)
         saved_old = self.old_env
         self.old_env = env
         try:
